@@ -8,6 +8,7 @@ global lock is held), and every action only touches the per-key mutex of its own
 import Lockable.Proofs.NoPanic
 import Lockable.Props.C01
 import Lockable.Proofs.Commute
+import Lockable.Proofs.SpecTrace
 namespace Lockable
 
 /-- No lost wake-up, state form: in every reachable state a free per-key mutex has no sleeping waiter —
@@ -227,5 +228,34 @@ example :
     let s := run (State.init .hashMap) [.lookup 1 7, .lookup 2 7, .enqueue 2, .lookup 3 7, .enqueue 3, .stamp 1, .release 1]
     (acquire s 2).2 = .bool true ∧ (acquire s 3).2 = .bool false ∧
     (acquire (run s [.acquire 2, .stamp 2, .release 2]) 3).2 = .bool true := by decide
+
+
+/-- History form of first come, first served (Theorem C + `history_fifo`): in the abstract history of every run of the core
+model, a waiter `h₂` that started to wait for `k` while `h₁` was already waiting for it is not granted the lock
+before `h₁` was granted it or gave up (was cancelled). -/
+theorem C03_history_fifo (kind : Kind) (as : List Act) (k h₁ h₂ : Nat) (hne : h₁ ≠ h₂)
+    (pre mid post : List SEv) (sp₁ : Spec)
+    (hdec : evsRun (State.init kind) as = pre ++ SEv.wait h₂ k :: (mid ++ SEv.grant h₂ k :: post))
+    (hpre : applyEvs Spec.init pre = some sp₁) (hin : h₁ ∈ sp₁.waiting k) :
+    SEv.grant h₁ k ∈ mid ∨ SEv.leave h₁ k ∈ mid := by
+  have hrun := lin_reachable kind as
+  rw [hdec] at hrun
+  obtain ⟨sp1', h1, h2⟩ := applyEvs_split pre _ _ _ hrun
+  rw [hpre] at h1; cases h1
+  simp only [applyEvs] at h2
+  cases he : applyEv sp₁ (SEv.wait h₂ k) with
+  | none => rw [he] at h2; cases h2
+  | some sp2 =>
+    rw [he] at h2
+    have hnd := waiting_nodup pre Spec.init sp₁ hpre (by intro x; simp [Spec.init]) k
+    exact history_fifo k h₁ h₂ hne _ sp2 _ h2 (ahead_after_wait k h₁ h₂ sp₁ sp2 hnd hin he) mid post rfl
+
+/-- non-vacuity of `C03_history_fifo`: 2 and 3 wait for key 7 in this order and are granted it in this order -/
+example :
+    evsRun (State.init .hashMap)
+      [.lookup 1 7, .lookup 2 7, .enqueue 2, .lookup 3 7, .enqueue 3, .stamp 1, .release 1, .acquire 2, .stamp 2, .release 2, .acquire 3] =
+      [.acquire 1 7, .wait 2 7] ++ SEv.wait 3 7 :: ([.release 1 7, .grant 2 7, .release 2 7] ++ SEv.grant 3 7 :: []) ∧
+    (∃ sp, applyEvs Spec.init [.acquire 1 7, .wait 2 7] = some sp ∧ 2 ∈ sp.waiting 7) := by
+  refine ⟨by decide, _, rfl, by decide⟩
 
 end Lockable
